@@ -11,13 +11,13 @@ META = {
     'bounds': {'quick': 'every lengths vector with <=3 rows of length 1..3 (both constructor forms for a subset); element access with '
                         'SYMBOLIC integer indices (all integers at once); boolean ragged masks with symbolic truth values; row / '
                         '(row, column) slices on a grid of bounds {None, -n-1, -n, -1, 0, 1, n, n+1} x steps {None,1,2,-1} (full grid for '
-                        '1-D, rotating pairs for 2-D); element values symbolic',
+                        '1-D, rotating pairs for 2-D); element values symbolic; vector-valued elements (frames x 2) with a reduced index set',
                'thorough': 'complete 2-D slice product with bounds -L-1..L+1 and steps {None,1,2,3,-1,-2}'},
     'stubs': [],
     'assumptions': ['slice bounds are enumerated, not symbolic (stated grid); element values and scalar indices are symbolic',
                     'deviations are classified into regions of the index grammar; regions listed in known_findings.jsonl are known '
                     'findings, every other deviation is a violation'],
-    'outside': ['elements of dtype=object with ragged 2nd/3rd dimension', '__repr__/__str__', 'multi-dimensional elements (not built)'],
+    'outside': ['elements of dtype=object with ragged 2nd/3rd dimension', '__repr__/__str__', 'elements with more than one extra dimension'],
 }
 
 
@@ -33,6 +33,8 @@ def jobs(tier):
         if len(lv) <= 2 or not q:
             add('getitem_job', 'getitem[%s,flat]' % list(lv), lengths=lv, form='flat', tier=tier)
         add('element_job', 'element[%s]' % list(lv), lengths=lv, form='nested' if sum(lv) % 2 else 'flat')
+        if len(lv) <= 2 or sum(lv) <= 5:
+            add('elements2d_job', 'vector-elements[%s]' % list(lv), lengths=lv, form='nested' if sum(lv) % 2 else 'flat')
         if sum(lv) <= (5 if q else 7):
             add('mask_job', 'mask[%s]' % list(lv), lengths=lv, form='nested')
     return J
